@@ -19,7 +19,7 @@ def edge_search(rng, tier):
     return lines, meta
 KEEP = cpucheck.fields("accesses", "NTRACE", "event")
 def run(tier, seed):
-    return cpucheck.run(PROP, tier, seed, cpucheck.std_gen(None, per_quick=3, per_thorough=200), keep=KEEP,
+    return cpucheck.run(PROP, tier, seed, cpucheck.std_gen(None, per_quick=3, per_thorough=500), keep=KEEP,
                         search_lines=edge_search,
                         rule="all dispatch cases x structured random states; the complete ordered access log (reads, writes, port in/out with "
                              "addresses and values) of the real code vs the extracted generated model")
